@@ -35,7 +35,7 @@ InverseOf(op) == CASE op = "unlist" -> "listby" [] op = "ungroup" -> "groupby" [
 \*   op, on = slot of the table object the call is made on, key = slot of the names object (0: none),
 \*   form = how the names are handed over: "names" (one by one, *by), "list" (the list object itself), "name" (its only element)
 \*   yk = 0 (y is given as the plain name y) or the slot of the ydict object;  y, z, agg (pivot / unpivot);  grp (groupby / ungroup)
-\*   col, vals, how (edit: how = "setitem" | "setattr");  names (respec);  res = the slot the result gets (0: none)
+\*   col, vals, how (edit: how = "setitem" | "setattr" | "update");  names (respec);  res = the slot the result gets (0: none)
 NoCall == [op |-> "", on |-> 0, key |-> 0, form |-> "", yk |-> 0, y |-> "", z |-> "", agg |-> "", grp |-> "",
            col |-> "", vals |-> <<>>, how |-> "", names |-> <<>>, res |-> 0]
 
@@ -49,10 +49,12 @@ YSel(S, cl, pv) == IF cl.yk = 0 THEN AllLabels(pv.t, pv.y) ELSE Range(S[cl.yk].v
 
 \* ---- clause (2): nobody's object is different after the step ----------------------------------
 Touched(cl) == IF cl.op = "edit" THEN cl.on ELSE IF cl.op = "respec" THEN cl.key ELSE 0
-ChangedSlots(S, cl, post) == {s \in 1..Len(S) : s # Touched(cl) /\ (s > Len(post) \/ post[s] # S[s])}
+\* kin = the slots that are exempt at an edit: a table and the table sort made of it (whether sort hands back a table of its
+\* own is not this property's business: a caller's edit of one may be seen in the other)
+ChangedSlots(S, cl, post, kin) == {s \in 1..Len(S) : s # Touched(cl) /\ s \notin kin /\ (s > Len(post) \/ post[s] # S[s])}
 MinOf(X) == CHOOSE x \in X : \A y \in X : x <= y
-ChangedClause(S, cl, post) ==
-    LET ch == ChangedSlots(S, cl, post) IN
+ChangedClause(S, cl, post, kin) ==
+    LET ch == ChangedSlots(S, cl, post, kin) IN
     IF ch = {} THEN ""
     ELSE IF ~Creates(cl.op) THEN "caller_edit_seen_in_another_object"
     ELSE LET s == MinOf(ch) IN
@@ -74,10 +76,10 @@ ResultClause(S, cl, out, colcmp, idcol, pv) ==
       [] OTHER -> ""        \* sort, edit, respec
 
 \* S = the store before the step, post = the store after it (with the result, if any, as its last object)
-StepVerdict(S, cl, raised, post, colcmp, idcol, pv) ==
+StepVerdict(S, cl, raised, post, colcmp, idcol, pv, kin) ==
     IF raised # "" THEN cl.op \o "_raises"
     ELSE IF Len(post) # Len(S) + (IF Creates(cl.op) THEN 1 ELSE 0) THEN "store_shape"
-    ELSE LET v == ChangedClause(S, cl, post) IN
+    ELSE LET v == ChangedClause(S, cl, post, kin) IN
          IF v # "" THEN v
          ELSE IF Creates(cl.op) THEN ResultClause(S, cl, post[Len(post)].val, colcmp, idcol, pv) ELSE ""
 
@@ -94,11 +96,16 @@ ProvOf(o, k) ==
          IF fc.op # InverseOf(cl.op) THEN NoProv
          ELSE [ok |-> ~\E m \in (j + 1)..(k - 1) : o.steps[m].call.op = "edit" /\ o.steps[m].call.on = cl.on,
                t |-> S[fc.on].val, key |-> S[fc.key].val, y |-> fc.y, z |-> fc.z, agg |-> fc.agg, grp |-> fc.grp]
+SortKin(o, k) ==
+    LET cl == o.steps[k].call IN
+    IF cl.op # "edit" THEN {}
+    ELSE {o.steps[j].call.res : j \in {j \in 1..(k - 1) : o.steps[j].call.op = "sort" /\ o.steps[j].call.on = cl.on}}
+         \cup {o.steps[j].call.on : j \in {j \in 1..(k - 1) : o.steps[j].call.op = "sort" /\ o.steps[j].call.res = cl.on}}
 RECURSIVE SessionFrom(_, _)
 SessionFrom(o, k) ==
     IF k > Len(o.steps) THEN ""
     ELSE LET e == o.steps[k]
-             v == StepVerdict(PreOf(o, k), e.call, e.raised, e.post, e.colcmp, o.idcol, ProvOf(o, k)) IN
+             v == StepVerdict(PreOf(o, k), e.call, e.raised, e.post, e.colcmp, o.idcol, ProvOf(o, k), SortKin(o, k)) IN
          IF v # "" THEN v ELSE SessionFrom(o, k + 1)
 SessionVerdict(o) == SessionFrom(o, 1)
 
